@@ -60,7 +60,7 @@ def strategy_(draw, tier):
 
     rnd = random.Random(draw(st.integers(0, 2**30)))
     start = draw(st.sampled_from([0, 0, 6, 95, 996]))
-    b = gen_graph._Builder(draw, rnd, ["s", draw(st.sampled_from(["utg", "n", "s0"]))], start, 9)
+    b = gen_graph._Builder(draw, rnd, [draw(st.sampled_from(["s", "s", ""])), draw(st.sampled_from(["utg", "n", "s0"]))], start, 9)
     b.cycles = draw(st.booleans())
     nchrom = draw(st.integers(1, 3))
     names = draw(st.permutations(["chr1", "chr2", "chrX", "chr10_alt"]))[:nchrom]
@@ -172,7 +172,8 @@ def judge(nodes, links, named, order, tags):
 def run_case(case):
     nodes, links = models.nodes_from_gfa_text(case["gfa"])
     named = name_components(nodes, links)
-    assert named is not None, "generator produced a majority tie"
+    if named is None:
+        return core.Result(False, ["excluded:majority_tie"])  # name_comps is a majority vote; ties are outside the domain
     order = case["order"].split(",")
     if case.get("real_window") and order == ["chr1"] and "chr1" not in named and len(named) == 1:
         order = list(named)  # a window dominated by one long insertion is named after that contig
